@@ -25,7 +25,7 @@ RULE = ('bounded-exhaustive: all sequences of 2 segments (quick; +sampled 3-segm
 ASSUMPTIONS = ['model list-order rule: listed objects replace in place, new ones append; NewObjList clears the list',
                "forbidden = first segment without metadata, 'same' for a path whose index was never defined, "
                "full index whose type differs from an earlier index of the path"]
-REQUIRED = ['valid_compared', 'forbidden_checked', 'alias_snapshots', 'explicit_compared', 'lazy_compared']
+REQUIRED = ['daqmx_compared', 'valid_compared', 'forbidden_checked', 'alias_snapshots', 'explicit_compared', 'lazy_compared']
 EXHAUSTIVE = {'quick': False, 'thorough': False}
 
 A, B, CC = "/'g'/'a'", "/'g'/'b'", "/'h'/'c'"
@@ -60,6 +60,8 @@ def gen_cases(tier, seed):
             yield {'k': 'enum', 'segs': [rng.randrange(n) for _ in range(3)]}
         for i in range(1500):
             yield {'k': 'rnd', 's': seed * 1000003 + i}
+        for i in range(600):
+            yield {'k': 'daqmx', 's': seed * 1000003 + i}
     else:
         for i in range(n):
             for j in range(n):
@@ -72,6 +74,8 @@ def gen_cases(tier, seed):
         for i in range(n3):
             for j in range(n3):
                 yield {'k': 'enum3', 'segs': [i, j]}
+        for i in range(30000):
+            yield {'k': 'daqmx', 's': seed * 1000003 + i}
         for _ in range(300000):
             yield {'k': 'enum3', 'segs': [rng.randrange(n3) for _ in range(3)]}
         for i in range(40000):
@@ -246,8 +250,58 @@ def compare_model(ctx, segs, snap, label):
             ctx.violation('%s/channel-order' % label, {'group': g, 'got': chans, 'want': by_group.get(g, [])})
 
 
+def daqmx_case(case, ctx):
+    """DAQmx raw data: the compact encodings (same-as-previous index, no metadata, a channel switched off with a no-data
+    index) against the fully explicit encoding of the same content, eager and lazy, scaler by scaler."""
+    from nptdms import TdmsFile
+    from vlib import daqmx as D
+    rng = random.Random('c02d/%d' % case['s'])
+    f = D.gen_daqmx(rng, allow_drop=True, max_segs=4)
+    kinds = tuple(sg['meta'] for sg in f.segs)
+    compact, explicit = f.encode()[0], f.encode(explicit=True)[0]
+    ctx.count('daqmx_files')
+    if any(k_ != 'full' for k_ in kinds):
+        ctx.distinct(('daqmx', kinds, f.signature()[:3]))
+    ctx.cell('daqmx-kinds:' + '|'.join(kinds))
+
+    def snap(blob, lazy):
+        tf = (TdmsFile.open if lazy else TdmsFile.read)(io.BytesIO(blob))
+        try:
+            out = {}
+            for g in tf.groups():
+                for ch in g.channels():
+                    raw = ch.read_data(scaled=False)
+                    out[ch.path] = (len(ch), {k_: C.image(v_) for k_, v_ in raw.items()} if isinstance(raw, dict) else C.image(raw),
+                                    C.props_snapshot(ch.properties), None if ch.data_type is None else ch.data_type.__name__)
+            return [g.name for g in tf.groups()], out
+        finally:
+            tf.close()
+    try:
+        ref = snap(explicit, False)
+    except Exception as ex:
+        ctx.violation('daqmx/explicit-encoding-raises/%s' % util.exc_key(ex), {'file': f.describe(), 'exc': util.exc_detail(ex)})
+        return
+    for lazy in (False, True):
+        for name, blob in (('compact', compact), ('explicit', explicit)):
+            if name == 'explicit' and not lazy:
+                continue
+            try:
+                got = snap(blob, lazy)
+            except Exception as ex:
+                ctx.violation('daqmx/%s-encoding-raises/%s/%s' % (name, 'lazy' if lazy else 'eager', util.exc_key(ex)),
+                              {'kinds': kinds, 'file': f.describe(), 'exc': util.exc_detail(ex)})
+                continue
+            ctx.count('daqmx_compared')
+            if got != ref:
+                bad = [p_ for p_ in set(ref[1]) | set(got[1]) if ref[1].get(p_) != got[1].get(p_)]
+                ctx.violation('daqmx/%s-differs-from-explicit/%s' % (name, 'lazy' if lazy else 'eager'),
+                              {'kinds': kinds, 'paths': bad[:3], 'lengths': [(ref[1].get(p_, (None,))[0], got[1].get(p_, (None,))[0]) for p_ in bad[:3]], 'file': f.describe()})
+
+
 def run_case(case, ctx):
     ctx.evaluation()
+    if case['k'] == 'daqmx':
+        return daqmx_case(case, ctx)
     if case['k'] in ('enum', 'enum3'):
         rng = random.Random('c02e' + case['k'] + repr(case['segs']))
         if case['k'] == 'enum':
